@@ -745,14 +745,12 @@ pub fn explore(run: &dyn Fn(&[u8]) -> Result<RunOut, String>, check: &dyn Fn(&Ru
             stats.capped = true;
             break;
         }
+        // an execution process that dies is retried once (environment); a schedule is never silently dropped
         let out = match run(&prefix) {
             Ok(o) => o,
-            Err(e) => {
+            Err(_) => {
                 stats.failed_runs += 1;
-                if stats.failed_runs > 3 {
-                    return Err(e);
-                }
-                continue;
+                run(&prefix)?
             }
         };
         stats.runs += 1;
